@@ -28,7 +28,8 @@ import (
 type c11Input struct {
 	Srcs     []string `json:"srcs"`
 	Resolver bool     `json:"resolver"`
-	Side     string   `json:"side"` // decorator | restorer
+	Side     string   `json:"side"`             // decorator | restorer
+	Extras   bool     `json:"extras,omitempty"` // restorer side: Restorer.Extras (objects and scopes restored, deferred declaring nodes)
 }
 
 func astKind(n ast.Node) string { return kindOf(n) }
@@ -212,6 +213,7 @@ func c11Check(in c11Input) (key, what string) {
 	} else {
 		r = decorator.NewRestorer()
 	}
+	r.Extras = in.Extras
 	var rafs []*ast.File
 	for _, df := range dfs {
 		var raf *ast.File
@@ -279,6 +281,17 @@ func c11Prop(c *Ctx) {
 			c.Res.hist("c11", fmt.Sprintf("%s resolver=%v files=%d", in.Side, in.Resolver, len(in.Srcs)))
 			if key, what := c11Check(in); key != "" {
 				c.Res.fail(key, what, in)
+			}
+			if side == "restorer" && len(in.Srcs) == 1 {
+				// the same with Extras: the nodes of the file keep their entries whatever the deferred
+				// restoration of declaring nodes does
+				in2 := in
+				in2.Extras = true
+				c.Res.Evaluations++
+				c.Res.hist("c11", fmt.Sprintf("restorer+extras resolver=%v", in.Resolver))
+				if key, what := c11Check(in2); key != "" {
+					c.Res.fail(key, what, in2)
+				}
 			}
 		}
 		if len(c.Res.Samples) < 2 {
